@@ -292,7 +292,16 @@ func (sc scen) body() (func(), func() ([]int, string)) {
 				var got []int
 				for i := 0; 84+50*(i+1) <= len(b); i++ {
 					x := math.Float32frombits(binary.LittleEndian.Uint32(b[84+50*i+12:]))
-					got = append(got, int(x))
+					k := int(x)
+					want := tri(k)
+					for q := 0; q < 3; q++ {
+						for a, w := range []float64{want[q].X, want[q].Y, want[q].Z} {
+							if float64(math.Float32frombits(binary.LittleEndian.Uint32(b[84+50*i+12+12*q+4*a:]))) != w {
+								k = -2
+							}
+						}
+					}
+					got = append(got, k)
 				}
 				if cnt != len(got) && info == "" {
 					info = fmt.Sprintf("count field %d but %d records", cnt, len(got))
@@ -349,7 +358,19 @@ func (sc scen) body() (func(), func() ([]int, string)) {
 					if int(t.V1) >= len(mesh.Vertices.Vertex) {
 						return nil, "vertex index out of range"
 					}
-					got = append(got, int(math.Round(float64(mesh.Vertices.Vertex[t.V1].X()))))
+					if int(t.V2) >= len(mesh.Vertices.Vertex) || int(t.V3) >= len(mesh.Vertices.Vertex) {
+						return nil, "vertex index out of range"
+					}
+					// the item number is accepted only if all three corners are those of that item
+					k := int(math.Round(float64(mesh.Vertices.Vertex[t.V1].X())))
+					want := tri(k)
+					for q, vi := range []uint32{t.V1, t.V2, t.V3} {
+						v := mesh.Vertices.Vertex[vi]
+						if float64(v.X()) != want[q].X || float64(v.Y()) != want[q].Y || float64(v.Z()) != want[q].Z {
+							k = -2
+						}
+					}
+					got = append(got, k)
 				}
 				return got, ""
 			}
@@ -369,7 +390,12 @@ func (sc scen) body() (func(), func() ([]int, string)) {
 					if !ok {
 						return nil, fmt.Sprintf("foreign entity %T", e)
 					}
-					got = append(got, int(math.Round(ln.Start[0])))
+					k := int(math.Round(ln.Start[0]))
+					want := line(k)
+					if len(ln.Start) < 2 || len(ln.End) < 2 || ln.Start[0] != want[0].X || ln.Start[1] != want[0].Y || ln.End[0] != want[1].X || ln.End[1] != want[1].Y {
+						k = -2
+					}
+					got = append(got, k)
 				}
 				return got, ""
 			}
